@@ -19,13 +19,16 @@ def run_fn(b: Bundle, relpath, qualname, args, pre=(), **kw):
     returns (fn, exec, paths) or (fn, None, None) when the function leaves the subset."""
     fn = Fn(relpath, qualname)
     b.add_fn(fn)
-    ex = Exec(fn, pre=list(pre), **kw)
+    ex = Exec(fn, pre=list(pre), **{k: v for k, v in kw.items() if k != "xcheck"})
     try:
         paths = ex.run(dict(args))
     except SymExError as e:
         b.subset_exits.append(f"{fn.key}: {e}")
         return fn, None, None
     b.absorb_exec(ex)
+    if relpath.endswith(".py") and kw.get("xcheck", True) is not False and not kw.get("contracts"):
+        from .xcheck import XItem
+        b.xitems.append(XItem(fn.key, relpath[:-3].replace("/", "."), qualname, fn.params, dict(args), list(pre), paths))
     return fn, ex, paths
 
 
@@ -220,3 +223,31 @@ def run_fragment(b: Bundle, parent: Fn, stmts, label, env, pre=(), **kw):
         return fr, None, None
     b.absorb_exec(ex)
     return fr, ex, paths
+
+
+def relate_runs(b: Bundle, fn, clause_id, clause, paths1, paths2, goal_of, pre=(), max_pairs=4000, **okw):
+    """relational postcondition over two executions of the same function (monotonicity, additivity ...):
+    for every pair of returning paths, pre /\\ pc1 /\\ pc2 => goal_of(p1, p2)."""
+    k = 0
+    for i, p1 in enumerate(paths1):
+        if p1.outcome != "return":
+            continue
+        for j, p2 in enumerate(paths2):
+            if p2.outcome != "return":
+                continue
+            g = goal_of(p1, p2)
+            if g is None:
+                continue
+            k += 1
+            if k > max_pairs:
+                b.subset_exits.append(f"{fn.key}: more than {max_pairs} path pairs for {clause_id}")
+                return
+            b.add(Obligation(oid=f"{fn.key}::ensures:{clause_id}@paths{i}x{j}", fn=fn.key, clause=clause, goal=g,
+                             hyps=list(pre) + p1.hyps + p2.hyps,
+                             meta=dict(pc1=[str(c)[:160] for c in p1.pc], pc2=[str(c)[:160] for c in p2.pc]), **okw))
+
+
+def rename(expr_or_list, mapping):
+    if isinstance(expr_or_list, (list, tuple)):
+        return [rename(e, mapping) for e in expr_or_list]
+    return expr_or_list.subs(mapping, simultaneous=True)
